@@ -124,6 +124,11 @@ class Sim(object):
             self.labels.add('copy')
         elif kind == 'write_over':
             target = self.fn
+            if op['target'] == 'empty':
+                # an existing file of length zero (a placeholder made by another program) is an existing file too
+                target = os.path.join(self.dir, 'empty%d.par' % self.n)
+                open(target, 'w').close()
+                before[target] = b''
             if op['target'] == 'other':
                 others = sorted(p for p in self.files if p != self.fn)
                 if others:
@@ -349,7 +354,7 @@ def make_machine(raw):
             def write_copy(self, comments):
                 self.step(dict(op='write_copy', comments=comments))
 
-            @rule(tgt=st.sampled_from(['self', 'self', 'other']), which=st.integers(0, 5), implicit=st.booleans())
+            @rule(tgt=st.sampled_from(['self', 'self', 'other', 'empty']), which=st.integers(0, 5), implicit=st.booleans())
             def write_over(self, tgt, which, implicit):
                 self.step(dict(op='write_over', target=tgt, which=which, implicit=implicit))
 
